@@ -19,7 +19,7 @@ from __future__ import annotations
 import ast
 
 from engine.common import AnalysisError
-from engine.absint import Evaluator, Obj
+from engine.absint import Evaluator, Obj, Raised
 from engine.actions import NodeVal, Slot
 from engine.srcindex import need_function
 from .shared import models, skeleton_results, none_slots
@@ -291,30 +291,51 @@ def run(report, index, tier):
                      lineno, lexpos, newline_idx),
                  'returns %r, the 1-based column is %d' % (got, want_col),
                  where='lexers/es5.py:Lexer.lookup_colno')
-        # findpos must hand (lexpos(idx), lineno(idx)) to lookup_colno
-        calls = []
+    # findpos: for every offset of a text using all four ES5 line
+    # terminators (and CRLF), with the line index the lexer keeps for it,
+    # the column returned is the 1-based distance from the line start
+    import re as _re
+    text = 'ab\ncd\u2028e\rfg\r\nh\u2029ij'
+    starts = [0] + [m.end() for m in _re.finditer(
+        '\r\n|[\n\r\u2028\u2029]', text)]
+    for lexpos, ch in enumerate(text):
+        if ch in '\n\r\u2028\u2029':
+            continue
+        lineno = max(i for i, s0 in enumerate(starts) if s0 <= lexpos) + 1
+        want_col = lexpos - starts[lineno - 1] + 1
+        lexer = Obj('Lexer', newline_idx=list(starts), lexer=Obj(
+            'PlyLexer', lexdata=text, lexpos=lexpos, lineno=lineno))
 
-        def lk(ln, lp, calls=calls):
-            calls.append((ln, lp))
-            return 777
+        def lk(ln, lp, lexer=lexer):
+            ev0 = Evaluator(lm.module, 'Lexer',
+                            lm.module.class_methods('Lexer'))
+            return ev0.call(lookup, [ln, lp], self_obj=lexer)[0]
+        lexer.lookup_colno = ('pyfunc', lk)
         p = Obj('YaccProduction',
-                lexpos=('pyfunc', lambda i, lexpos=lexpos: lexpos + i * 0),
+                lexpos=('pyfunc', lambda i, lexpos=lexpos: lexpos),
                 lineno=('pyfunc', lambda i, lineno=lineno: lineno),
-                lexer=Obj('Lexer', lookup_colno=('pyfunc', lk)))
+                lexer=lexer)
         ev = Evaluator(am.module, 'Node', {}, {
-            'callable': lambda x: True,
-            'getattr': lambda o, n, d=None: getattr(o, n)
-            if o.has(n) else d})
-        got, _ = ev.call(findpos, [p, 1], self_obj=Obj('Node'))
-        r5.check(tuple(got) == (lexpos, lineno, 777) and
-                 calls == [(lineno, lexpos)],
-                 'findpos(%d,%d)' % (lineno, lexpos),
-                 'Node.findpos with p.lexpos=%d p.lineno=%d' % (
-                     lexpos, lineno),
-                 'returns %r after calling lookup_colno%r; expected '
-                 '(lexpos, lineno, colno) with colno from '
-                 'lookup_colno(lineno, lexpos)' % (got, calls),
-                 where='asttypes.py:Node.findpos')
+            'callable': lambda x: x is not None,
+            'getattr': lambda o, n, d=None: (
+                (getattr(o, n) if o.has(n) else d) if isinstance(o, Obj)
+                else getattr(o, n, d))})
+        try:
+            got, _ = ev.call(findpos, [p, 1], self_obj=Obj('Node'))
+            got = tuple(got)
+        except Raised as e:
+            got = 'raises %s' % e.text
+        except (TypeError, ValueError):
+            pass
+        r5.check(got == (lexpos, lineno, want_col),
+                 'findpos(line %d, column %d)' % (lineno, want_col),
+                 'Node.findpos for the token at offset %d of %r' % (
+                     lexpos, text),
+                 'returns %r; under ES5 line terminator counting the '
+                 'token is at (offset, line, column) = %r' % (
+                     got, (lexpos, lineno, want_col)),
+                 where='asttypes.py:Node.findpos',
+                 witness=text)
     from .c06 import line_index_rule
     line_index_rule(report, index, 'R11.6')
     report.not_decided.append(
